@@ -372,7 +372,7 @@ func runC04(c *fw.Ctx) {
 		}
 	}
 	codes := []string{"200", "404"}
-	placements := []string{"top", "url-implicit-first", "url-implicit-second", "url-paren-first", "url-paren-second"}
+	placements := []string{"top", "url-implicit-first", "url-implicit-second", "url-paren-first", "url-paren-second", "after-tagged-url"}
 	for _, style := range styles {
 		for _, pl := range placements {
 			for qi, q := range qf {
@@ -421,6 +421,13 @@ func runC04(c *fw.Ctx) {
 								var ids []string
 								other := doc.N("GET").WithKids(doc.N("204", "empty"))
 								switch pl {
+								case "after-tagged-url":
+									// an implicit URL block with URL-level Tags, directly followed by the path-bearing focus
+									nodes = append(nodes, doc.N("TAG", "@grp"), doc.N("URL", "/tagged").WithKids(doc.N("Tags", "@grp"), doc.N("GET").WithKids(doc.N("204", "empty"))))
+									m.Params = []string{path}
+									nodes = append(nodes, m)
+									ids = []string{"http GET /tagged", id}
+									e["$.interactions.http GET /tagged.tags[0]"] = "@grp"
 								case "top":
 									m.Params = []string{path}
 									m.Paren = len(m.Kids) > 0
@@ -452,6 +459,8 @@ func runC04(c *fw.Ctx) {
 								e[p+".httpMethod"] = "POST"
 								e[p+".path"] = path
 								e[p+".pathVariables"] = absent
+								e[p+".tags.#len"] = "1"
+								e[p+".tags[0]"] = "@focus"
 								if ann {
 									e[p+".annotation"] = "does things"
 								} else {
@@ -474,7 +483,7 @@ func runC04(c *fw.Ctx) {
 										rf[ri].exp(e, rp)
 									}
 								}
-								if len(ids) == 2 {
+								if len(ids) == 2 && pl != "after-tagged-url" {
 									op := "$.interactions.http GET " + path
 									e[op+".httpMethod"] = "GET"
 									e[op+".responses.#len"] = "1"
